@@ -119,6 +119,19 @@ def model_eval(text, timeout=600):
     return r.stdout.splitlines()
 
 
+def model_eval_chunks(chunks, timeout=900, procs=16):
+    """chunks: list of self-contained input texts (each starts with its own G command).
+    Runs them on up to `procs` model_eval processes in parallel; returns all output lines."""
+    import concurrent.futures as cf
+    if not chunks:
+        return []
+    k = min(procs, len(chunks))
+    groups = [''.join(chunks[i::k]) for i in range(k)]
+    with cf.ThreadPoolExecutor(k) as ex:
+        outs = list(ex.map(lambda t: model_eval(t, timeout), groups))
+    return [ln for o in outs for ln in o]
+
+
 def check_proofs(prop_files, thorough=False):
     """Re-checks the property files with coqc (after `make`, a no-op when .vo are fresh) and collects
     every `Print Assumptions` verdict. Returns dict(obligations, discharged, theorems, axioms, ok, log)."""
